@@ -31,7 +31,7 @@ META = {
 
 MODEL_SRC = '''
 from dataclasses import dataclass
-from typing import Iterable, TypeVar, Generic, Any
+from typing import Iterable, TypeVar, Generic, Any, Protocol
 import ast as _ast
 from func_adl import register_func_adl_os_collection, func_adl_callback
 from func_adl.type_based_replacement import ObjectStreamInternalMethods
@@ -77,6 +77,10 @@ class Plain0:
     def tag(self) -> int: ...
 class GenFirst(Generic[T], Plain0):
     def gf(self) -> T: ...
+# a structural (Protocol) class declares its type variables the way Generic does
+class HasLead(Protocol[T]):
+    def plead(self) -> T: ...
+    def pcount(self) -> int: ...
 # a collection class whose type parameter is NOT its item type: a sequence of sequences of T
 class Jagged(ObjectStreamInternalMethods[Iterable[T]]):
     def flat(self) -> Iterable[T]: ...
@@ -157,6 +161,7 @@ class WJ(W[Jet]):
     extra: float
 class Event(Base):
     def jag(self) -> Jagged[Trk]: ...
+    def haslead(self) -> HasLead[Jet]: ...
     def jets_abc(self) -> AbcColl[Jet]: ...
     def rawbox(self) -> Box: ...
     def things(self) -> Iterable: ...
@@ -240,7 +245,7 @@ def bases_of(t):
         return []
     params = _params(origin)
     mapping = dict(zip(params, typing.get_args(t)))
-    raw = [b for b in getattr(origin, "__orig_bases__", origin.__bases__) if typing.get_origin(b) is not typing.Generic and b is not typing.Generic]
+    raw = [b for b in getattr(origin, "__orig_bases__", origin.__bases__) if typing.get_origin(b) not in (typing.Generic, typing.Protocol) and b not in (typing.Generic, typing.Protocol)]
     return [_subst(b, mapping) for b in raw]
 
 
@@ -469,6 +474,11 @@ class TGen:
             # a key written twice holds its last value
             parts.insert(0, (key, "1.5" if t is not float else "True", None))
         body = "{" + ", ".join(f"'{k}': {x}" for k, x, _ in parts) + "}"
+        if len(parts) == 2 and self.r.random() < 0.25:
+            c = self.boolean(v, vt, 0)
+            if c is not None:
+                body = f"({body} if {c} else {{" + ", ".join(f"'{k}': {x}" for k, x, _ in reversed(parts)) + "})"
+                self.records_cond = getattr(self, "records_cond", 0) + 1
         self.interesting = True
         return (f"{body}.{key}" if self.r.random() < 0.5 else f"{body}['{key}']"), t
 
@@ -564,6 +574,8 @@ def judge_stage(ctx, stream, cur_t, rnd):
     ctx.count("op:" + op)
     if cond_case:
         ctx.count("conditionals-with-equal-branch-types")
+    if getattr(g, "records_cond", 0):
+        ctx.count("conditionals-of-records-with-permuted-fields", g.records_cond)
     if getattr(g, "regops", 0):
         ctx.count("late-registered-operator-uses", g.regops)
     if not same_type(got, exp_t):
